@@ -503,6 +503,51 @@ func TestVerifC09Faults(t *testing.T) {
 		}()
 	}
 	wg.Wait()
+	// ---- histories: a probe's verdict must not depend on what an earlier probe of the same process saw
+	// (state kept between probes: pooled reply structs, reused buffers). On one goroutine, each negative
+	// server behaviour is probed right after a real proxy was found, and a proxy right after each negative.
+	if run.Batch() == 0 {
+		proxy := []c09step{{Op: "read", N: 3}, {Op: "send", Bytes: []byte{5, 0}}}
+		sc := socks5.NewScanner(socks5.WithDialTimeout(300*time.Millisecond), socks5.WithDataTimeout(300*time.Millisecond))
+		probe := func(steps []c09step, ip string) scan.Result {
+			srv := newC09Server(func(string) []c09step { return steps })
+			defer srv.close()
+			res, _ := sc.Scan(context.Background(), c09req(ip, srv.port))
+			return res
+		}
+		k := 0
+		for rep := 0; rep < 3; rep++ {
+			for _, f := range c09faults() {
+				if f.Want || f.Connect != "" {
+					continue
+				}
+				quick := true
+				for _, st := range f.Steps {
+					if st.Op == "hold" || st.Op == "trickle" || st.Op == "flood" {
+						quick = false // time-outs are the subject of the cases above
+					}
+				}
+				if !quick {
+					continue
+				}
+				k++
+				ip := fmt.Sprintf("127.2.%d.%d", 1+k%200, 1+k%250)
+				run.Case(fmt.Sprintf("history%03d", k), map[string]interface{}{"after_a_proxy": f.Name})
+				pos := probe(proxy, ip)
+				neg := probe(f.Steps, ip)
+				run.Eval(2)
+				if pos == nil {
+					// upper bound for the probe: only counted
+					run.Count("history_proxy_not_found_in_300ms", 1)
+					continue
+				}
+				if neg != nil {
+					run.Violation("faults:false-proxy-after-proxy:"+f.Name, fmt.Sprintf("server behaviour %q is reported as a SOCKS5 proxy when it is probed right after a real proxy was found: %v", f.Name, neg), f)
+				}
+				run.Count("history_pairs_checked", 1)
+			}
+		}
+	}
 }
 
 // ---- wired
